@@ -35,6 +35,7 @@ import sys as _sys
 # the theorems over the heavy kernel tables (PropsThorough.lean) are built and re-proved in the thorough tier only
 LEAN_TARGETS = ["Ipv8.C13.Props"] + (["Ipv8.C13.PropsThorough"] if "thorough" in _sys.argv[1:] else [])
 LEANCHECKER_MODULES = ["Ipv8.C13.PropsThorough"] if "thorough" in _sys.argv[1:] else []
+EXTRA_PROPS_FILES = ["Ipv8/C13/PropsThorough.lean"] if "thorough" in _sys.argv[1:] else []
 PROPS_FILE = "Ipv8/C13/Props.lean"
 DRIVER = "drv_c13"
 RULE = ("scripted introductions: NAT type of requester x of introduced peer (4x4) x placement {public, different NATs, same "
